@@ -121,7 +121,7 @@ func c19DimOfAtom(r *Run, fn *ssa.Function, found map[string]*CondInfo, a RuleAt
 // (the judge's second result) is the one reported.
 func (r *Run) c19DimTable(fn *ssa.Function, key string, dims []c19Dim, want []string,
 	classify func(v map[string]string) string,
-	judge func(class string, v map[string]string, reach *Reach) (string, bool)) {
+	judge func(class string, v map[string]string, reach *Reach, s Sigma) (string, bool)) {
 	for _, d := range dims {
 		if len(d.Opts) == 0 {
 			r.Fail(key, r.FnPos(fn), "undecided: dimension "+d.Name+" has no option")
@@ -153,7 +153,7 @@ func (r *Run) c19DimTable(fn *ssa.Function, key string, dims []c19Dim, want []st
 				n++
 				hits[c]++
 				reach := r.D.Walk(fn, s, nil, nil)
-				if msg, g := judge(c, v, reach); msg != "" && (bad[c] == "" || g && !grave[c]) {
+				if msg, g := judge(c, v, reach, s); msg != "" && (bad[c] == "" || g && !grave[c]) {
 					bad[c] = fmt.Sprintf("%s [valuation %s]", msg, s)
 					grave[c] = g
 				}
@@ -433,6 +433,21 @@ func c19CellUntouched(r *Run, fn *ssa.Function, key string, t *c19STH, um ssa.Ca
 		name := CalleeOf(c)
 		return c == um || name == c19Sign
 	}
+	// a function that only reads through the pointer it is handed (a memo lookup, a key builder)
+	readsOnly := func(c ssa.CallInstruction, v ssa.Value) bool {
+		g := c.Common().StaticCallee()
+		if g == nil || c.Common().IsInvoke() {
+			return false
+		}
+		ok, found := true, false
+		for i, a := range c.Common().Args {
+			if a == v {
+				found = true
+				ok = ok && c19ReadsOnly(g, i, 0)
+			}
+		}
+		return ok && found
+	}
 	var visit func(v ssa.Value, path string, depth int)
 	visit = func(v ssa.Value, path string, depth int) {
 		if v.Referrers() == nil || depth > 4 {
@@ -455,7 +470,7 @@ func c19CellUntouched(r *Run, fn *ssa.Function, key string, t *c19STH, um ssa.Ca
 			case *ssa.MakeInterface:
 				visit(x, path, depth+1)
 			case ssa.CallInstruction:
-				if _, isBuiltin := x.Common().Value.(*ssa.Builtin); !isBuiltin && !readOnly(x) {
+				if _, isBuiltin := x.Common().Value.(*ssa.Builtin); !isBuiltin && !readOnly(x) && !readsOnly(x, v) {
 					note(x, "its address"+path+" is passed to "+CalleeOf(x))
 				}
 			}
@@ -479,8 +494,23 @@ var c19Refusal = map[string]string{
 }
 
 func c19Update(r *Run, fn *ssa.Function) {
-	sets := asInstrs(CallsTo(fn, c19Set))
-	signs := asInstrs(CallsTo(fn, c19Sign))
+	// the places where the row may be written: direct setSTH calls, and store units (function
+	// literals of Update called where they are written that hold the setSTH call) — rules_t8c19.go
+	sites := c19StoreSites(r, fn)
+	var sets, directSets []ssa.Instruction
+	for _, st := range sites {
+		sets = append(sets, st.Call)
+		if st.Unit == nil {
+			directSets = append(directSets, st.Call)
+		}
+	}
+	directSigns := asInstrs(CallsTo(fn, c19Sign))
+	signs := append([]ssa.Instruction{}, directSigns...)
+	for _, st := range sites {
+		if st.Unit != nil && st.Signs {
+			signs = append(signs, st.Call)
+		}
+	}
 	r.Rule("C19.R2")
 	r.Check("Update:calls", len(sets) >= 1 && len(signs) >= 1, r.FnPos(fn), fmt.Sprintf("%d setSTH and %d signSTH calls", len(sets), len(signs)))
 	if len(sets) == 0 || len(signs) == 0 {
@@ -509,11 +539,26 @@ func c19Update(r *Run, fn *ssa.Function) {
 	nextDim, errN := c19DimOfAtom(r, fn, found, RuleAtom{Name: "next", Pat: "nil?" + c19Next + "#1"})
 	prevDim, errP := c19DimOfAtom(r, fn, found, RuleAtom{Name: "prev", Pat: "nil?" + c19Prev + "#1"})
 	nextWhys, prevWhys := []string{""}, []string{""}
+	heldBytes := ""
 	if cand != nil {
 		nextT, nextDim, errN, nextWhys = cand.Term, cand.Dim, nil, cand.Whys
 	}
 	if held != nil {
 		prevT, prevDim, errP, prevWhys = held.Term, held.Dim, nil, held.Whys
+		heldBytes = held.Bytes
+	}
+	c19VerifiedHeads = nil
+	if cand != nil {
+		c19VerifiedHeads = append(c19VerifiedHeads, cand.Term)
+	}
+	if held != nil {
+		c19VerifiedHeads = append(c19VerifiedHeads, held.Term)
+	}
+	// the contract of every store unit (and what its write is conditional on)
+	for _, st := range sites {
+		if st.Unit != nil {
+			c19StoreUnit(r, st, nextT, heldBytes)
+		}
 	}
 	r.Rule("C19.R2")
 	prevRaw := c19Get + "#0"
@@ -524,32 +569,47 @@ func c19Update(r *Run, fn *ssa.Function) {
 	if len(rootTests) == 1 {
 		rootsKey, rootsNe = rootTests[0].Key, rootTests[0].Ne
 	}
+	siteOf := func(v ssa.Value) (*c19Site, int) {
+		call, i := ResultIndex(v)
+		if call == nil {
+			return nil, 0
+		}
+		for _, st := range sites {
+			if st.Unit != nil && st.Call == call {
+				return st, i
+			}
+		}
+		return nil, 0
+	}
 	type shape struct{ data, err string }
 	shapes := func(reach *Reach) []shape {
 		var out []shape
 		for _, ret := range reachableReturns(fn, reach) {
-			v := RetVals(ret)
-			d := r.D.D(v[0])
-			switch {
-			case d == "nil":
-			case glob(prevRaw, d):
-				d = "held"
-			case glob(c19Sign+"("+"p0, "+nextT+")#0", d):
-				d = "cosigned(next)"
-			}
-			e := errKind(v[1])
-			if e == "non" {
-				// the error as it is under this valuation (φ restricted to the edges taken)
-				ls := PhiLeaves(v[1], reach)
-				fp := len(ls) > 0
-				for _, l := range ls {
-					fp = fp && glob("status.Errorf(9, *)", r.D.D(l))
+			for _, p := range c19RetPairs(ret, reach) {
+				d := r.D.D(p[0])
+				switch {
+				case d == "nil":
+				case glob(prevRaw, d):
+					d = "held"
+				case glob(c19Sign+"("+"p0, "+nextT+")#0", d):
+					d = "cosigned(next)"
 				}
-				if fp {
+				e := errKind(p[1])
+				if e == "non" && glob("status.Errorf(9, *)", r.D.D(p[1])) {
+					// the error as it is under this valuation (φ restricted to the edges taken)
 					e = "FailedPrecondition"
 				}
+				// the outcome of a store unit handed on as it is: (cosigned(next), nil) after a
+				// successful write, (nil, error) otherwise — the unit's own table decides that
+				if sd, i := siteOf(p[0]); sd != nil {
+					if se, j := siteOf(p[1]); se == sd && i == 0 && j == 1 {
+						d, e = "unit-outcome", "unit-outcome"
+					} else {
+						d = "result of a store unit without its error"
+					}
+				}
+				out = append(out, shape{d, e})
 			}
-			out = append(out, shape{d, e})
 		}
 		return out
 	}
@@ -572,7 +632,12 @@ func c19Update(r *Run, fn *ssa.Function) {
 	if errN != nil && dimErr == nil {
 		dimErr = errN
 	}
-	addAtoms(RuleAtom{Name: "tx", Pat: "nil?(*sql.DB).BeginTx(*)#1"})
+	// the transaction is opened by Update itself (then its failure is a class of this table) or
+	// by the store units (then it is a class of theirs)
+	txHere := len(CallsTo(fn, "(*sql.DB).BeginTx")) > 0 || len(directSets) > 0
+	if txHere {
+		addAtoms(RuleAtom{Name: "tx", Pat: "nil?(*sql.DB).BeginTx(*)#1"})
+	}
 	addAtoms(readAtoms...)
 	dims = append(dims, prevDim)
 	if errP != nil && dimErr == nil {
@@ -582,9 +647,14 @@ func c19Update(r *Run, fn *ssa.Function) {
 		RuleAtom{Name: "size", OrdA: nextT + ".TreeSize", OrdB: prevT + ".TreeSize"},
 		RuleAtom{Name: "roots", Pat: rootsKey},
 		RuleAtom{Name: "proof", Pat: "nil?proof.VerifyConsistency(*)"},
-		RuleAtom{Name: "store", Pat: "nil?" + c19Set + "(*)"},
-		RuleAtom{Name: "sign", Pat: "nil?" + c19Sign + "(*)#1"},
 	)
+	storeHere, signHere := len(directSets) > 0, len(directSigns) > 0
+	if storeHere {
+		addAtoms(RuleAtom{Name: "store", Pat: "nil?" + c19Set + "(*)"})
+	}
+	if signHere {
+		addAtoms(RuleAtom{Name: "sign", Pat: "nil?" + c19Sign + "(*)#1"})
+	}
 	className := func(base, why string) string {
 		if why == "" {
 			return base
@@ -597,7 +667,6 @@ func c19Update(r *Run, fn *ssa.Function) {
 		"read-failed":          "reading the stored row failed, so nothing is known about the held tree head",
 		"smaller":              "the candidate is smaller than the held tree head",
 		"same-size-other-root": "same size as the held tree head but another root",
-		"identical":            "it is the held tree head again: nothing to store",
 		"proof-rejected":       "the consistency proof from the held tree head does not verify",
 	}
 	classify := func(v map[string]string) string {
@@ -609,7 +678,7 @@ func c19Update(r *Run, fn *ssa.Function) {
 			return "unknown-log"
 		case v["next"] == "non":
 			return className("candidate-rejected", v["next?"])
-		case v["tx"] == "non":
+		case txHere && v["tx"] == "non":
 			return "no-transaction"
 		case read == "failed":
 			return "read-failed"
@@ -628,13 +697,56 @@ func c19Update(r *Run, fn *ssa.Function) {
 		}
 		return "extension"
 	}
-	judge := func(class string, v map[string]string, reach *Reach) (string, bool) {
+	storeOK := func(v map[string]string) bool {
+		return (!storeHere || v["store"] == "nil") && (!signHere || v["sign"] == "nil")
+	}
+	// the returns of an accepted update: (cosigned(next), nil) only when storing and signing
+	// succeeded, (nil, error) otherwise
+	accepted := func(sh []shape, v map[string]string) (string, bool) {
+		okSeen := false
+		for _, s := range sh {
+			switch {
+			case s.data == "nil" && (s.err == "non" || s.err == "FailedPrecondition"):
+			case s.data == "unit-outcome":
+				okSeen = true
+			case s.data == "cosigned(next)" && s.err == "nil":
+				okSeen = true
+				if !storeOK(v) {
+					return "returns the cosigned STH although storing or signing failed", true
+				}
+			default:
+				return fmt.Sprintf("may return (%s, error:%s) on the accepting path", s.data, s.err), false
+			}
+		}
+		if storeOK(v) && !okSeen {
+			return "no (cosigned(next), nil) return although store and sign succeeded", false
+		}
+		return "", false
+	}
+	// what a store site's write is conditional on must be what the class decided on
+	fits := func(class string, reach *Reach) string {
+		for _, st := range sites {
+			if st.Unit == nil || !reach.Has(st.Call) {
+				continue
+			}
+			switch {
+			case st.Mode == "":
+				return "undecided: the store unit reached here has no decided condition for its write"
+			case class == "first-use" && st.Mode != "nil":
+				return "nothing was stored when the decision was made (first use), but the store unit reached here requires the row to equal the held bytes instead of requiring that there still is no row"
+			case class != "first-use" && st.Mode != "held":
+				return "the decision was made against the held tree head, but the store unit reached here does not require the row in its transaction to still be the bytes that tree head was decoded from"
+			}
+		}
+		return ""
+	}
+	judge := func(class string, v map[string]string, reach *Reach, sg Sigma) (string, bool) {
 		wrote := len(reachableIns(sets, reach)) > 0
 		sh := shapes(reach)
 		if len(sh) == 0 {
 			return "no return reachable", false
 		}
-		all := func(data, err string) string {
+		all := func(sh []shape, data, err string) string {
 			for _, s := range sh {
 				if s.data != data || s.err != err {
 					return fmt.Sprintf("may return (%s, error:%s); the property prescribes (%s, error:%s)", s.data, s.err, data, err)
@@ -647,21 +759,37 @@ func c19Update(r *Run, fn *ssa.Function) {
 			if !wrote {
 				return "the accepted STH is not stored (no setSTH call executes)", true
 			}
-			okSeen := false
-			for _, s := range sh {
-				switch {
-				case s.data == "nil" && (s.err == "non" || s.err == "FailedPrecondition"):
-				case s.data == "cosigned(next)" && s.err == "nil":
-					okSeen = true
-					if v["store"] != "nil" || v["sign"] != "nil" {
-						return "returns the cosigned STH although storing or signing failed", true
-					}
-				default:
-					return fmt.Sprintf("may return (%s, error:%s) on the accepting path", s.data, s.err), false
-				}
+			if msg := fits(class, reach); msg != "" {
+				return msg, true
 			}
-			if v["store"] == "nil" && v["sign"] == "nil" && !okSeen {
-				return "no (cosigned(next), nil) return although store and sign succeeded", false
+			return accepted(sh, v)
+		case "identical":
+			if !wrote {
+				return all(sh, "held", "nil"), false
+			}
+			// Same size and same root as the held tree head: the property allows a validly signed
+			// re-issue to replace it ("never shrinks", "equal size implies equal root").  Then
+			// every return that does not pass a store site answers (held, nil), and what follows
+			// a store site is the outcome of an accepted update.
+			if msg := fits(class, reach); msg != "" {
+				return msg, true
+			}
+			before := r.D.Walk(fn, sg, nil, BlocksOf(sets))
+			for _, in := range sets {
+				delete(before.Blocks, in.Block())
+			}
+			if msg := all(shapes(before), "held", "nil"); msg != "" {
+				return "without storing: " + msg, false
+			}
+			for _, in := range reachableIns(sets, reach) {
+				after := r.D.Walk(fn, sg, in.Block(), nil)
+				ash := shapes(after)
+				if len(ash) == 0 {
+					return "no return reachable after the store", false
+				}
+				if msg, g := accepted(ash, v); msg != "" {
+					return "after storing a re-issue of the held tree head: " + msg, g
+				}
 			}
 			return "", false
 		}
@@ -677,12 +805,22 @@ func c19Update(r *Run, fn *ssa.Function) {
 		}
 		switch class {
 		case "smaller", "same-size-other-root", "proof-rejected":
-			return all("held", "FailedPrecondition"), false
-		case "identical":
-			return all("held", "nil"), false
+			return all(sh, "held", "FailedPrecondition"), false
+		case "no-transaction":
+			// (the transaction may be opened only where it is needed: what is decided before that
+			// is answered as it would be with one — by a refusal or the held STH, never a cosignature)
+			for _, s := range sh {
+				switch {
+				case s.data == "nil" && (s.err == "non" || s.err == "FailedPrecondition"):
+				case s.data == "held" && (s.err == "FailedPrecondition" || s.err == "nil"):
+				default:
+					return fmt.Sprintf("may return (%s, error:%s) although no transaction could be opened", s.data, s.err), false
+				}
+			}
+			return "", false
 		}
 		for _, s := range sh {
-			if s.data != "nil" || s.err == "nil" || s.err == "dyn" {
+			if s.data != "nil" || s.err == "nil" || s.err == "dyn" || s.err == "unit-outcome" {
 				return fmt.Sprintf("may return (%s, error:%s); a hard refusal%s returns (nil, error)", s.data, s.err, why), false
 			}
 		}
@@ -694,7 +832,10 @@ func c19Update(r *Run, fn *ssa.Function) {
 		refused[c] = "the candidate is refused: " + c19Refusal[w]
 		classes = append(classes, c)
 	}
-	classes = append(classes, "no-transaction", "read-failed")
+	if txHere {
+		classes = append(classes, "no-transaction")
+	}
+	classes = append(classes, "read-failed")
 	if tellsNotFound {
 		// (without a comparison of the read error's code with NotFound there is no first-use
 		// class to judge: every non-nil read error is a failed read)
@@ -726,37 +867,47 @@ func c19Update(r *Run, fn *ssa.Function) {
 		n, p := nextT+".SHA256RootHash", prevT+".SHA256RootHash"
 		r.Check("Update:roots-compared.operands", glob(n, eq.TX) && glob(p, eq.TY) || glob(p, eq.TX) && glob(n, eq.TY), r.Where(eq.At), "equal-size test compares "+eq.TX+" with "+eq.TY)
 	}
-	var txAlloc *ssa.Alloc
-	if bt := r.OneCall(fn, "Update:BeginTx", "(*sql.DB).BeginTx"); bt != nil {
-		r.ExpectArg(bt, "Update:BeginTx.db", 0, "p0.db")
-		r.ExpectArg(bt, "Update:BeginTx.ctx", 1, "p1")
-	}
-	for _, sc := range sets {
-		c := sc.(ssa.CallInstruction)
-		a := baseAlloc(CallArgs(c)[1])
-		okTx := a != nil
-		if a != nil {
-			sts := WholeStores(a)
-			okTx = len(sts) > 0
-			for _, st := range sts {
-				okTx = okTx && glob("(*sql.DB).BeginTx(*)#0", r.D.D(st.Val))
-			}
-			if txAlloc == nil {
-				txAlloc = a
-			}
-			okTx = okTx && a == txAlloc
+	if txHere {
+		bts := CallsTo(fn, "(*sql.DB).BeginTx")
+		r.Check("Update:BeginTx", len(bts) >= 1, r.FnPos(fn), fmt.Sprintf("%d call(s) of (*sql.DB).BeginTx in %s (the transaction setSTH writes through is opened here)", len(bts), FuncName(fn)))
+		for _, bt := range bts {
+			r.ExpectArg(bt, "Update:BeginTx.db", 0, "p0.db")
+			r.ExpectArg(bt, "Update:BeginTx.ctx", 1, "p1")
 		}
+	}
+	var txIDs []any // per direct store site: the transaction it writes through
+	for _, sc := range directSets {
+		c := sc.(ssa.CallInstruction)
+		id, okTx := c19TxID(r, CallArgs(c)[1])
+		txIDs = append(txIDs, id)
 		r.Check("Update:setSTH.tx", okTx, r.Where(c), "setSTH writes through the transaction opened by BeginTx: "+r.D.D(CallArgs(c)[1]))
 		r.ExpectArg(c, "Update:setSTH.logID", 2, "p2")
 		r.ExpectArg(c, "Update:setSTH.bytes", 3, "p3")
 	}
 	if g := r.OneCall(fn, "Update:getLatestSTH", c19Wit+".getLatestSTH"); g != nil {
-		m, recv := BoundMethod(CallArgs(g)[1])
-		r.Check("Update:read-in-tx", m == "(*database/sql.Tx).QueryRow" && recv != nil && txAlloc != nil && baseAlloc(recv) == txAlloc, r.Where(g),
-			"the previous STH is read with "+m+" bound to the same transaction")
+		// The decision is made on the row as it is in the writing transaction: a direct setSTH
+		// call writes through the transaction the held STH was read through; a store unit reads
+		// the row again in its own transaction and compares (its own obligations, above) — then
+		// the first read only has to come from the witness's database.
+		if len(directSets) > 0 {
+			m, recv := BoundMethod(CallArgs(g)[1])
+			rid, okR := c19TxID(r, recv)
+			same := m == "(*database/sql.Tx).QueryRow" && okR
+			for _, id := range txIDs {
+				same = same && id != nil && id == rid
+			}
+			detail := "the previous STH is read with " + m + " bound to the transaction every setSTH call writes through"
+			if !same {
+				detail = "the held STH the decision is made on is read with " + m + ", not through the transaction that setSTH writes through (and the row is not read again and compared inside that transaction): an update that commits between the read and the write is overwritten by a candidate that was never checked against it — the held STH can shrink or fork"
+			}
+			r.Check("Update:read-in-tx", same, r.Where(g), detail)
+		} else {
+			what, ok := c19ReadSource(r, CallArgs(g)[1])
+			r.Check("Update:read-source", ok, r.Where(g), "the held STH is read from the witness's database: "+what)
+		}
 		r.ExpectArg(g, "Update:getLatestSTH.logID", 2, "p2")
 	}
-	for _, sg := range signs {
+	for _, sg := range directSigns {
 		r.ExpectArg(sg.(ssa.CallInstruction), "Update:signSTH.sth", 1, nextT)
 	}
 	if fg := r.Fn(c19Wit + ".getLatestSTH"); fg != nil {
@@ -801,7 +952,7 @@ func c19GetSTH(r *Run, fn *ssa.Function) {
 func c19Parse(r *Run, fn *ssa.Function) {
 	r.Rule("C19.R5")
 	succ := successReturns(fn)
-	if !r.Check("parse:success-returns", len(succ) == 1, r.FnPos(fn), fmt.Sprintf("%d nil-error returns", len(succ))) {
+	if !r.Check("parse:success-returns", len(succ) >= 1, r.FnPos(fn), fmt.Sprintf("%d nil-error returns", len(succ))) {
 		return
 	}
 	r.MustGuard(fn, "parse:log-known", "p0.Logs[p2]#1", "F", succ, "nil-error return")
@@ -812,7 +963,18 @@ func c19Parse(r *Run, fn *ssa.Function) {
 		return
 	}
 	if t.Form == "inline" {
-		r.Check("parse:returns-verified", baseAlloc(RetVals(succ[0].(*ssa.Return))[0]) == t.Cell, r.Where(succ[0]), "parse returns the STH whose signature was verified")
+		for _, ret := range succ {
+			r.Check("parse:returns-verified", baseAlloc(RetVals(ret.(*ssa.Return))[0]) == t.Cell, r.Where(ret), "parse returns the STH whose signature was verified")
+		}
+		// every nil-error return comes after VerifySTHSignature accepted this STH — or after a test
+		// that establishes it was accepted before (rules_t8c19.go)
+		var verify []ssa.CallInstruction
+		for _, c := range CallsTo(fn, "(ct.SignatureVerifier).VerifySTHSignature") {
+			if a := CallArgs(c); len(a) == 2 && baseAlloc(a[1]) == t.Cell {
+				verify = append(verify, c)
+			}
+		}
+		c19Memo(r, fn, succ, t.Cell, verify)
 	} else {
 		r.Fail("parse:returns-verified", r.Where(succ[0]), "undecided: parse obtains its result from a call of itself")
 	}
